@@ -118,7 +118,8 @@ def st_dw_case(draw, tier="quick", versions=(6, 6, 6, 2, 3, 7, 8), maxdim=3, lmi
                 margin=draw(st.sampled_from(list(margins))), safety=draw(st.sampled_from(list(safeties))),
                 maxev=draw(st.integers(hi // 3, hi)), maxsteps=draw(st.sampled_from([1, 2, 3, 5, 8, 12, 16, 20, 25, 25])), tape=tape, mode=mode,
                 fseed=draw(st.integers(0, 10 ** 6)),
-                legs=draw(st.one_of(st.none(), st.none(), st.lists(st.sampled_from([1, 1, 5, 20, 60]), min_size=1, max_size=6))))
+                legs=draw(st.one_of(st.none(), st.none(), st.lists(st.sampled_from([1, 1, 5, 20, 60]), min_size=1, max_size=6))),
+                rerun=draw(st.one_of(st.none(), st.none(), st.none(), st.sampled_from([[1, 2], [1, 3], [2, 3], [2, 4]]))))
 
 
 @st.composite
@@ -142,7 +143,8 @@ def st_es_case(draw, tier="quick", versions=(0, 1, 2), boundary_choices=(True, T
                 estimator=draw(st.sampled_from(["tape", "tape", "library"])),
                 maxev=draw(st.integers(hi // 3, hi)), maxsteps=draw(st.sampled_from([2, 3, 4, 5, 6, 8, 12, 16])), tape=tape, mode=mode,
                 fseed=draw(st.integers(0, 10 ** 6)),
-                legs=draw(st.one_of(st.none(), st.none(), st.lists(st.sampled_from([1, 1, 5, 20, 60]), min_size=1, max_size=6))))
+                legs=draw(st.one_of(st.none(), st.none(), st.lists(st.sampled_from([1, 1, 5, 20, 60]), min_size=1, max_size=6))),
+                rerun=draw(st.one_of(st.none(), st.none(), st.none(), st.sampled_from([[1, 2], [1, 3]]))))
 
 
 # ------------------------------------------------------------------------------------------------------------
@@ -299,9 +301,20 @@ def run_history(sa, case, on_eval=None, before_refine=None, after_refine=None, c
                                                  print_output=False, **kw)
     except StopHistory:
         pass
-    finally:
-        sa.evaluate_operation = orig_eval
-        sa.refine = orig_refine
+    rerun = None if clean_stop else case.get("rerun")
+    if rerun:
+        # the same solver object is started again from scratch with another start configuration (a second
+        # performSpatiallyAdaptiv); the observers keep running, so every invariant is evaluated on the second run as well
+        state["refines"] = 0
+        state["second_run"] = True
+        try:
+            with quiet():
+                res = sa.performSpatiallyAdaptiv(int(rerun[0]), int(rerun[1]), error_operator(case), tol=-1,
+                                                 max_evaluations=10 ** 9, print_output=False, **kw)
+        except StopHistory:
+            pass
+    sa.evaluate_operation = orig_eval
+    sa.refine = orig_refine
     return res, state
 
 
